@@ -71,28 +71,29 @@ Section Run.
 
   Notation Post := (Post U cfg).
   Notation MidFacts := (MidFacts U).
+  Notation FinRooted := HubInv.FinRooted.
 
   (* the state a run of events E (consumer c0 before) ends in *)
   Definition Resume (c0 : cons) (E : list event) (a : block) (s' : fstate) (Fin' : list block) (S' : cstack) (c' : cons) : Prop :=
-    Post a s' Fin' S' c' /\ cons_fold c0 E = Some c' /\ MidFacts c0 E a Fin'.
+    Post a s' Fin' S' c' /\ cons_fold c0 E = Some c' /\ MidFacts c0 E a Fin' /\ FinRooted a Fin'.
 
-  Lemma run_post : forall h a s Fin S c, Post a s Fin S c -> (forall b, In b h -> In b U) ->
+  Lemma run_post : forall h a s Fin S c, Post a s Fin S c -> FinRooted a Fin -> (forall b, In b h -> In b U) ->
     exists s' F' S' c',
       run_ok cfg s h s' /\ Resume c (all_events (fk_run cfg s h)) a s' (Fin ++ F') S' c' /\
       linked (bid (libblk a Fin)) F' /\ Forall (fun x => In x U /\ bnum (libblk a Fin) < bnum x) F'.
   Proof.
-    induction h as [|b h IH]; intros a s Fin S c HP Hh.
+    induction h as [|b h IH]; intros a s Fin S c HP HFR Hh.
     - exists s, [], S, c. rewrite app_nil_r. split; [apply run_ok_nil|]. split.
-      + split; [exact HP|]. split; [reflexivity | apply mid_nil].
+      + split; [exact HP|]. split; [reflexivity|]. split; [apply mid_nil | exact HFR].
       + split; [exact I | constructor].
     - destruct (post_step U cfg Hnofail Hnew Hundo Hirr Hincl U_id U_uniq U_up D_decl a s Fin S c b HP (Hh b (or_introl eq_refl)))
         as (s1 & evs & Fnew & S1 & c1 & Hstep & HP1 & Hc1 & HlF & HFU & HM).
-      destruct (IH a s1 (Fin ++ Fnew) S1 c1 HP1 (fun x Hx => Hh x (or_intror Hx)))
-        as (s' & F2 & S' & c' & HR & (HP' & Hc' & HM') & Hl2 & HF2).
+      destruct (IH a s1 (Fin ++ Fnew) S1 c1 HP1 (fin_rooted_app a Fin Fnew HFR HlF) (fun x Hx => Hh x (or_intror Hx)))
+        as (s' & F2 & S' & c' & HR & (HP' & Hc' & HM' & HFR') & Hl2 & HF2).
       destruct (run_ok_cons cfg s b h s1 evs s' Hstep HR) as [HR' HE].
       exists s', (Fnew ++ F2), S', c'. rewrite HE, app_assoc.
       split; [exact HR'|]. split; [|split].
-      + split; [exact HP'|]. split; [rewrite cfold_app, Hc1; exact Hc'|].
+      + split; [exact HP'|]. split; [rewrite cfold_app, Hc1; exact Hc'|]. split; [|exact HFR'].
         apply (mid_compose U _ _ c1); [exact Hc1 | apply mid_extend; assumption | exact HM'].
       + apply linked_app_iff. split; [exact HlF|]. rewrite <- libblk_tip. exact Hl2.
       + apply Forall_app. split; [exact HFU|].
@@ -111,15 +112,15 @@ Section Run.
     induction h as [|b h IH]; intros s HP Hh.
     - exists s. split; [apply run_ok_nil|]. left. auto.
     - destruct (pre_step2 U cfg Hnofail Hnew Hundo Hirr Hhold Hincl U_id U_uniq U_up D_decl s b HP (Hh b (or_introl eq_refl)))
-        as [(s1 & Hstep & HP1 & _)|(a & s1 & evs & Fin & S1 & c1 & Hstep & HP1 & Hc1 & HM1)].
+        as [(s1 & Hstep & HP1 & _)|(a & s1 & evs & Fin & S1 & c1 & Hstep & HP1 & Hc1 & HM1 & HFR1)].
       + destruct (IH s1 HP1 (fun x Hx => Hh x (or_intror Hx))) as (s' & HR & HPh).
         destruct (run_ok_cons cfg s b h s1 [] s' Hstep HR) as [HR' HE].
         exists s'. split; [exact HR'|]. rewrite HE. exact HPh.
-      + destruct (run_post h a s1 Fin S1 c1 HP1 (fun x Hx => Hh x (or_intror Hx)))
-          as (s' & F2 & S' & c' & HR & (HP' & Hc' & HM') & Hl2 & HF2).
+      + destruct (run_post h a s1 Fin S1 c1 HP1 HFR1 (fun x Hx => Hh x (or_intror Hx)))
+          as (s' & F2 & S' & c' & HR & (HP' & Hc' & HM' & HFR') & Hl2 & HF2).
         destruct (run_ok_cons cfg s b h s1 evs s' Hstep HR) as [HR' HE].
         exists s'. split; [exact HR'|]. right. exists a, (Fin ++ F2), S', c'. rewrite HE.
-        split; [exact HP'|]. split; [rewrite cfold_app, Hc1; exact Hc'|].
+        split; [exact HP'|]. split; [rewrite cfold_app, Hc1; exact Hc'|]. split; [|exact HFR'].
         apply (mid_compose U _ _ c1); [exact Hc1 | apply mid_extend; assumption | exact HM'].
   Qed.
 
